@@ -58,6 +58,98 @@ def judgeInst (pfx : String) (o : Inst) : Option String :=
   else if !futures o then some (pfx ++ "/future/resolved-with-other-value")
   else none
 
+/-! ## Replicated log (Multi-Paxos / Flexible Paxos): a leader commits only on a phase-2 quorum
+
+Observables recorded by the harness entities, in time order:
+* `prop p b slot cmd` — node `p` sent `Accept(b, slot, cmd)` (it holds that entry in its own log);
+* `acc d b slot cmd`  — node `d` answered `Accept(b, slot, cmd)` with `Accepted`;
+* `ack p slot ci0 ci1 b cmd` — an `Accepted` for `slot` was delivered to node `p`; its public
+  `log.commit_index` was `ci0` before and `ci1` after the delivery, its ballot afterwards is `b` and
+  its log holds `cmd` at `slot` (0 = nothing).  `ci0 < ci1` is a *commit by the leader*;
+* `prom p bn l0 l1` — phase 1, see below.
+
+Two readings of "a slot is decided only once a phase-2 quorum accepted it":
+* `commitQuorum q2` (acknowledgement form, judged): at a commit by the leader at least `q2`
+  acknowledgements for the slot exist — the leader's own entry plus every `Accepted` for the slot
+  delivered to it so far.  This is implied by the distinct-acceptor form below.
+* `commitQuorumStrict q2` (distinct-acceptor form): at least `q2` *distinct* nodes accepted
+  `(ballot, slot, value)`.  The pinned tree does not satisfy it (acknowledgements are counted per
+  slot, so a duplicate `Accepted` of one acceptor counts twice; see
+  `MP.commit_distinct_quorum_current_false`); it is evaluated only when asked for.
+-/
+
+inductive LogObs
+  | prop (p b slot cmd : Nat)
+  | acc (d b slot cmd : Nat)
+  | ack (p slot ci0 ci1 b cmd : Nat)
+  | prom (p bn : Nat) (l0 l1 : Bool)
+deriving Repr, DecidableEq
+
+/-- `ok hist o` for every observation `o` of the list, `hist` = the observations before it (newest first) -/
+def checkAll (ok : List LogObs → LogObs → Bool) : List LogObs → List LogObs → Bool
+  | _, [] => true
+  | hist, o :: rest => ok hist o && checkAll ok (o :: hist) rest
+
+def isAck (p slot : Nat) : LogObs → Bool
+  | .ack p' s' _ _ _ _ => p' == p && s' == slot
+  | _ => false
+
+/-- `Accepted` messages for `slot` delivered to `p` (history, any order) -/
+def ackCnt (hist : List LogObs) (p slot : Nat) : Nat := hist.countP (isAck p slot)
+
+/-- the observation `o`, made after the history `hist`, is not a commit by a leader with fewer
+    than `q2` acknowledgements (own entry + delivered `Accepted`, this one included) -/
+def commitAcksOk (q2 : Nat) (hist : List LogObs) : LogObs → Bool
+  | .ack p slot ci0 ci1 _ _ => decide (ci1 ≤ ci0) || decide (q2 ≤ 1 + (ackCnt hist p slot + 1))
+  | _ => true
+
+/-- acknowledgement form over a whole observation list (`hist` = what came before, newest first) -/
+def commitQuorum (q2 : Nat) : List LogObs → List LogObs → Bool := checkAll (commitAcksOk q2)
+
+def accepterOf (b slot cmd : Nat) : LogObs → Option Nat
+  | .prop p b' s' c' => if b' == b && s' == slot && c' == cmd then some p else none
+  | .acc d b' s' c' => if b' == b && s' == slot && c' == cmd then some d else none
+  | _ => none
+
+/-- distinct nodes that accepted `(b, slot, cmd)` -/
+def accepters (hist : List LogObs) (b slot cmd : Nat) : List Nat :=
+  (hist.filterMap (accepterOf b slot cmd)).eraseDups
+
+def commitStrictOk (q2 : Nat) (hist : List LogObs) : LogObs → Bool
+  | .ack _ slot ci0 ci1 b cmd => decide (ci1 ≤ ci0) || decide (q2 ≤ (accepters hist b slot cmd).length)
+  | _ => true
+
+/-- distinct-acceptor form -/
+def commitQuorumStrict (q2 : Nat) : List LogObs → List LogObs → Bool := checkAll (commitStrictOk q2)
+
+/-- first violated clause of the commit rule, as a signature (`strict` adds the distinct-acceptor form) -/
+def judgeCommit (pfx : String) (q2 : Nat) (strict : Bool) (obs : List LogObs) : Option String :=
+  if !commitQuorum q2 [] obs then some (pfx ++ "/commit/without-phase2-quorum")
+  else if strict && !commitQuorumStrict q2 [] obs then some (pfx ++ "/commit/fewer-distinct-acceptors-than-phase2-quorum")
+  else none
+
+/-! ### phase 1: a node becomes leader only on a phase-1 quorum of promises
+
+`prom p bn l0 l1` — a phase-1 response for ballot number `bn` reached node `p`: its own `start()`
+(the node's own promise) or a delivered `Promise`; `l0` / `l1` = its public `is_leader` before / after.
+`l0 = false`, `l1 = true` is *becoming leader*: at least `q1` responses for `bn` (this one included)
+must have reached `p`. -/
+
+def isProm (p bn : Nat) : LogObs → Bool
+  | .prom p' b' _ _ => p' == p && b' == bn
+  | _ => false
+
+def promCnt (hist : List LogObs) (p bn : Nat) : Nat := hist.countP (isProm p bn)
+
+def leaderOk (q1 : Nat) (hist : List LogObs) : LogObs → Bool
+  | .prom p bn l0 l1 => l0 || !l1 || decide (q1 ≤ promCnt hist p bn + 1)
+  | _ => true
+
+def leaderQuorum (q1 : Nat) : List LogObs → List LogObs → Bool := checkAll (leaderOk q1)
+
+def judgeLeader (pfx : String) (q1 : Nat) (obs : List LogObs) : Option String :=
+  if !leaderQuorum q1 [] obs then some (pfx ++ "/leader/without-phase1-quorum") else none
+
 /-! ## Distributed lock: fencing tokens strictly increase across grants -/
 
 /-- an observed grant: (lock, holder, token) -/
